@@ -30,7 +30,8 @@ def sh(cmd, cwd=None, timeout=3600, env=None):
 
 def main():
     a = sys.argv[1:]
-    pid, n = a[0], a[1]
+    sid, n = a[0], a[1]  # seed id (e.g. C04b) and number
+    pid = re.match(r"(C\d+)", sid).group(1)  # the property it belongs to
     budget, workers, pkgs = "45", "8", None
     demo_dir_cli = None
     i = 2
@@ -44,11 +45,11 @@ def main():
         elif a[i] == "--demo-dir":
             demo_dir_cli = a[i + 1]
         i += 2
-    src = "/tmp/seed/%s.out/%s" % (pid, n)
+    src = "/tmp/seed/%s.out/%s" % (sid, n)
     patch = os.path.join(src, "patch.diff")
     meta = json.load(open(os.path.join(src, "meta.json"))) if os.path.exists(os.path.join(src, "meta.json")) else {}
     demos = [f for f in os.listdir(src) if f.endswith("_test.go") or (f.endswith(".go") and f != "patch.diff")]
-    wt = "/tmp/seedeval/%s-%s" % (pid, n)
+    wt = "/tmp/seedeval/%s-%s" % (sid, n)
     shutil.rmtree(wt, ignore_errors=True)
     sh("git -C /repo worktree prune")
     rc, out = sh("git -C /repo worktree add -q --detach %s HEAD" % wt)
@@ -116,7 +117,7 @@ def main():
         if rc3 not in (0, 1):
             result["check"]["output_tail"] = out3[-1500:]
         if ok:
-            dst = os.path.join(ROOT, "seeded", "%s-%s" % (pid, n))
+            dst = os.path.join(ROOT, "seeded", "%s-%s" % (sid, n))
             shutil.rmtree(dst, ignore_errors=True)
             os.makedirs(dst)
             shutil.copy(patch, dst)
